@@ -179,6 +179,10 @@ def generate(rng, tier):
     nseq = 60 if tier == "quick" else 1500
     # fixed sequences: a failed removal leaves a dead referent, the listing getter then has to sweep it (a write)
     cases.append({"kind": "seq", "lock": False, "ops": [
+        _entry_op(("type_float", "EntityType", "create", "method")), {"op": "gc"}, {"op": "list", "kind": "types"},
+        {"op": "list", "kind": "types"}, {"op": "list", "kind": "objects"}, {"op": "close"}, {"op": "list", "kind": "types"},
+        {"op": "open", "mode": None}, {"op": "list", "kind": "types"}]})
+    cases.append({"kind": "seq", "lock": False, "ops": [
         _entry_op(("pts", "ObjectBase", "remove_children", "method")), {"op": "gc"}, {"op": "list", "kind": "data"},
         {"op": "list", "kind": "objects"}, {"op": "close"}, {"op": "list", "kind": "data"}, {"op": "open", "mode": None},
         {"op": "list", "kind": "data"}, _entry_op(("pts", "Entity", "name", "setter"))]})
@@ -627,6 +631,8 @@ def oracle(case, obs):
                                   f"(bytes same: {obs.get('sha_same')}, same inode: {obs.get('inode_same')})"})
         if obs.get("exc") is not None:
             fails.append({"key": "helper-raised:repack_readonly", "what": f"close raised {obs['exc']}: {obs.get('msg')}"})
+        if obs.get("handle_after") != "closed":
+            fails.append({"key": "close-left-handle-open", "what": f"after close() the handle is still {obs.get('handle_after')} (repack set)"})
         if obs.get("nfiles", 0) != 0:
             fails.append({"key": "handle-left-open:repack_readonly", "what": "open HDF5 file after close"})
         return fails
